@@ -6,7 +6,7 @@ use crate::gen;
 use crate::ids::{Id, Renew};
 use crate::node::{Cfg, Node, Op};
 use crate::run::{Acc, Check, Ctx, Flav, Verdict, Workload, V};
-use crate::util::{fp, permutations, Rng64};
+use crate::util::{fp, Rng64};
 use crate::wire::{self, kind_name};
 use foca::{Header, Member, Message, State};
 use serde_json::json;
@@ -24,7 +24,7 @@ struct World {
 /// Build a reachable world: every knowledge state comes from real operations,
 /// and a peer never holds a generation newer than the member's actual one.
 fn build(r: &mut Rng64) -> (World, String) {
-    let n = r.range(2, 3) as usize;
+    let n = r.range(2, 4) as usize;
     let codec = *r.pick(&[CodecKind::Hand, CodecKind::Postcard, CodecKind::BincodeStd]);
     let mut cfg = Cfg::simple();
     cfg.k = r.range(1, 3) as usize;
@@ -141,16 +141,43 @@ fn cascade_case(ctx: &Ctx, case: u64, acc: &mut Acc) -> Verdict {
     let mut deliveries = 0usize;
     let mut max_fanout = 0usize;
     let mut triples: BTreeMap<(Id, Id, &'static str), usize> = BTreeMap::new();
-    // small bags: follow one fixed permutation order chosen by the case, otherwise random
-    let perm_mode = r.chance(1, 2);
+    // delivery order strategies: random, FIFO, LIFO, and two adversarial ones that look at the datagrams
+    // (replies to the newest identities first / automatic replies last)
+    let strategy = r.below(6);
+    let codec = w.codec;
+    let rank = |d: &[u8]| -> (u8, u8) {
+        match wire::decode_header(codec, d) {
+            Ok((h, _)) => (u8::from(h.message == Message::TurnUndead), 255 - h.src.gen),
+            Err(_) => (0, 0),
+        }
+    };
     while !bag.is_empty() {
-        let idx = if perm_mode && bag.len() <= 5 {
-            let ps = permutations(bag.len());
-            ps[r.usize(ps.len())][0]
-        } else {
-            r.usize(bag.len())
+        let idx = match strategy {
+            0 | 1 => r.usize(bag.len()),
+            2 => 0,
+            3 => bag.len() - 1,
+            4 => {
+                // gossip and friends before TurnUndead, newest source generation first
+                let mut best = 0;
+                for i in 1..bag.len() {
+                    if rank(&bag[i].1) < rank(&bag[best].1) {
+                        best = i;
+                    }
+                }
+                best
+            }
+            _ => {
+                // TurnUndead first, oldest source generation first
+                let mut best = 0;
+                for i in 1..bag.len() {
+                    if rank(&bag[i].1) > rank(&bag[best].1) {
+                        best = i;
+                    }
+                }
+                best
+            }
         };
-        let (to, data) = bag.swap_remove(idx);
+        let (to, data) = bag.remove(idx);
         let Some(j) = w.nodes.iter().position(|x| x.id().addr == to.addr) else { continue };
         if w.nodes[j].poisoned {
             acc.inconclusive += 1;
@@ -205,6 +232,7 @@ fn cascade_case(ctx: &Ctx, case: u64, acc: &mut Acc) -> Verdict {
     acc.max("fan_out_per_delivery", max_fanout as u64);
     acc.tally("cascades_drained", 1);
     acc.tally(&format!("initial/{}", wire::KINDS[kind.min(10)]), 1);
+    acc.tally(&format!("delivery_order_strategy/{strategy}"), 1);
     acc.tally("datagrams_delivered", deliveries as u64);
     if deliveries >= 2 {
         acc.nontrivial(fp(&(desc.clone(), what.clone())));
@@ -217,7 +245,7 @@ pub fn check() -> Check {
     Check {
         id: "C18",
         level: "exploration",
-        rule: "2..=3 real instances put, by public operations only, into random reachable mutual-knowledge states (unknown/Alive/Suspect/Down/superseded generation; active/idle/left/told-down; renewable or not; notify_down_members on/off; with/without custom broadcasts); one well-formed datagram of each of the 11 kinds (case index mod 11) injected; network drained in random order with all timers held. Caps: 64 deliveries per cascade, 4 deliveries of the same (src,dst,kind), fan-out (self-directed updates+1)*k+2 per delivery. Non-trivial: >= 2 deliveries; distinct by (world, injected datagram).",
+        rule: "2..=4 real instances put, by public operations only, into random reachable mutual-knowledge states (unknown/Alive/Suspect/Down/superseded generation; active/idle/left/told-down; renewable or not; notify_down_members on/off; with/without custom broadcasts); one well-formed datagram of each of the 11 kinds (case index mod 11) injected; network drained with all timers held under 5 delivery-order strategies (random, FIFO, LIFO, gossip-before-TurnUndead with newest identities first, TurnUndead-first with oldest identities first). Caps: 64 deliveries per cascade, 4 deliveries of the same (src,dst,kind), fan-out (self-directed updates+1)*k+2 per delivery. Non-trivial: >= 2 deliveries; distinct by (world, injected datagram).",
         assumptions: &["a finite run cannot show non-termination: a reply chain longer than the caps (an order of magnitude above the longest legitimate one observed) is what is reported"],
         required: &["cascades_drained", "initial/TurnUndead", "initial/Ping"],
         workloads: vec![Workload { name: "cascade", f: cascade_case, quick: 60_000, thorough: 3_000_000, flav: Flav::Checked }],
